@@ -110,7 +110,22 @@ def c12_jobs(tier):
     return jobs
 
 
+def c07_jobs(tier):
+    jobs = [J('detect', 'H_C07_workflow', [w], stubs=['workflow', 'tq_summary'], timeout_ms=180000) for w in (2, 1, 0)]
+    if tier != 'quick':
+        # the real ThresholdQ and the definitional ten-bin statistic executed inside the workflow (no summary)
+        jobs.append(J('detect', 'H_C07_workflow', [2], stubs=['workflow'], timeout_ms=600000))
+    return jobs
+
+
 PROPS = {
+    'C07': {
+        'jobs': c07_jobs,
+        'bounds': {'quick': 'FactoryDetect / PowerOnDetect / PeriodDetect at their real sizes (50/20/20 samples x 15/15/12 items, 125000/125000/2500-byte buffers): complete over all pass matrices and all Q matrices in [0,1]',
+                   'thorough': 'same (the quantification is already complete); longer solver time-outs'},
+        'outside': 'what the round functions compute (C01-C05/C15) - they are replaced by scripted symbolic results; io.ReadFull by contract (C10); Igamc uninterpreted',
+        'assumptions': ['quick tier: ThresholdQ summarised as a function of its argument list (its definition and order independence are C12); thorough tier additionally runs the periodic workflow with the real ThresholdQ', 'Round15/Round12 summarised: call k returns a slice of the real length whose item j has symbolic Pass_kj and Q_kj in [0,1]', 'io.ReadFull contract: fills the buffer with the next len(buf) stream bytes, returns (len, nil)', 'Igamc uninterpreted; Threshold evaluated concretely (binary64) for s = 50 / 20'],
+    },
     'C12': {
         'jobs': c12_jobs,
         'bounds': {'quick': 'Threshold(s): bit-precise binary64 (QF_FP, RNE) for every s in 1..1024 in ranges of 64, against the exact integer characterisation; 48/50, 19/20, 981/1000 concretely; ThresholdQ: every list of length 1..12, 20, 50 of reals in [0,1]; permutation invariance by adjacent swaps at lengths 2,3,5,8',
